@@ -345,7 +345,8 @@ FAULTS = ["none", "drop-first", "drop-middle", "drop-last", "duplicate", "unknow
           "two-odd-value-columns", "unknown+drop", "duplicate+drop", "nan+unknown", "duplicate-after-type-conversion",
           "unknown-item-first-dimension", "unknown-item-early", "unknown-item-in-single-item-column",
           "repeated-row-labels", "nan+repeated-row-labels", "label-as-text-in-untyped-dimension",
-          "infinite-value", "infinite+drop", "infinite+nan", "duplicate-with-other-value", "row-relabelled-onto-existing-combination"]
+          "infinite-value", "infinite+drop", "infinite+nan", "duplicate-with-other-value", "row-relabelled-onto-existing-combination",
+          "unknown-item-early+rows-shuffled-keeping-their-index", "rows-shuffled-keeping-their-index", "nan+rows-shuffled-keeping-their-index"]
 
 
 def long_frame(dw, arr, letters):
@@ -475,6 +476,12 @@ def apply_fault(dw, df: PD.Frame, letters, fault):
             rows[k] = list(rows[k])
             rows[k][cand[0]] = str(rows[k][cand[0]])
             note["extra"] = True
+        elif f == "rows-shuffled-keeping-their-index":
+            # as after df.sample(frac=1) / sort_values: the rows are in another order and each keeps its integer label
+            order = list(range(len(rows)))
+            order = order[1::2] + order[0::2][::-1]
+            rows = [rows[i] for i in order]
+            note["row_labels"] = [(i,) for i in order]
         elif f == "repeated-row-labels":
             note["row_labels"] = [(i % 2,) for i in range(len(rows))]     # as after pd.concat without ignore_index: labels 0,1,0,1,...
         elif f == "two-odd-value-columns":
